@@ -267,6 +267,7 @@ type Exec struct {
 	traceReturns bool
 	cli    bool // interpreting cmd/jpgo: library calls are modelled, not inlined
 	onExit func(status AV, h *Heap, p pathInfo) // os.Exit in the command (J-ABS)
+	onPanic func(arg AV, h *Heap, p pathInfo)    // an explicit panic (API rules)
 	pendingFV []AV // captured variables for the function literal about to be entered
 	ord    func(a, b prov) (int, bool) // order hypothesis on tagged numbers/strings (rule K-ORDER): -1, 0, +1
 	cliGlobals map[string]string // package-level variables of the command initialised to os.Stdout / os.Stderr / os.Stdin
@@ -861,6 +862,10 @@ func (a *activation) instrs(b *ssa.BasicBlock, idx int, fr *frame, h *Heap, p pa
 			a.k(rets, h, p, fr)
 			return
 		case *ssa.Panic:
+			if x.onPanic != nil {
+				x.onPanic(x.val(fr, in.X), h, p)
+				return
+			}
 			x.ev("explicit-panic", in, false, "explicit panic reachable")
 			return
 		case *ssa.Call:
